@@ -50,17 +50,20 @@ EXTRA_HEADER = [
 
 
 def gen_case(rng, scale=1):
-    params = dict(n_contigs=rng.choice([1, 2, 2, 3]), n_trios=0, quartet=False, n_singles=rng.choice([1, 2, 3, 3]),
+    n_trios = rng.choice([0, 0, 1])
+    params = dict(n_contigs=rng.choice([1, 2, 2, 3]), n_trios=n_trios, quartet=False,
+                  n_singles=rng.choice([0, 1, 2]) if n_trios else rng.choice([1, 2, 3, 3]),
                   n_variants=[4, 7 + 2 * scale], depth=[3, 6], read_len=[130, 380], het_prob=rng.choice([0.6, 0.8]),
                   recomb_prob=0.0, kinds=rng.choice([["snv"], ["snv", "snv", "ins", "del", "mnp"]]), shuffle_samples=False)
-    distrust = rng.random() < 0.2
+    distrust = rng.random() < 0.3
     params["gt_error_prob"] = 0.15 if distrust else 0.0
     return {"kind": "c04", "gen_seed": rng.randrange(1 << 40), "params": params,
             "vcf": {"pre": rng.choice(["none", "none", "PS", "HP", "per-sample"]), "decoys": rng.random() < 0.7,
                     "odd_gt": rng.random() < 0.5, "phasing_line": rng.random() < 0.5,
                     "contig_header": rng.random() < 0.8, "odd_defs": rng.random() < 0.3, "undefined_gq": rng.random() < 0.2,
                     "n_info": rng.randrange(0, 5), "n_fmt": rng.randrange(0, 6), "flip_prob": rng.choice([0.0, 0.5])},
-            "opts": {"tag": rng.choice(["PS", "HP"]), "distrust": distrust, "only_snvs": rng.random() < 0.25,
+            "opts": {"tag": rng.choice(["PS", "HP"]), "distrust": distrust, "include_hom": bool(distrust and rng.random() < 0.5),
+                     "ped": bool(n_trios), "only_snvs": rng.random() < 0.25,
                      "sample_sel": rng.random() < 0.4, "chrom_sel": rng.random() < 0.35}}
 
 
@@ -112,7 +115,10 @@ def build_inputs(case, d):
     v = case["vcf"]
     info_keys = rng.sample(["DP", "AF", "XR", "XS", "DB"], v["n_info"])
     fmt_pool = ["DP", "AD", "ADR", "XA", "PL", "XF", "XT", "XV", "GQ", "PQ"]
-    fmt_keys = rng.sample(fmt_pool, v["n_fmt"])
+    if case["opts"]["distrust"]:
+        # --distrust-genotypes reads PL as genotype likelihoods and crashes on a missing PL value (observed; not C04's subject)
+        fmt_pool.remove("PL")
+    fmt_keys = rng.sample(fmt_pool, min(v["n_fmt"], len(fmt_pool)))
     pre_of = {s: {"none": None, "PS": "PS", "HP": "HP", "per-sample": ["PS", "HP", None][i % 3]}[v["pre"]]
               for i, s in enumerate(sc.samples)}
     use_ps = any(p == "PS" for p in pre_of.values()) or v["decoys"]
@@ -196,4 +202,6 @@ def build_inputs(case, d):
     sim.write_bam(bam, sc.contigs, sc.reads, [("rg_" + s, s) for s in sc.samples])
     sim.write_vcf(vcf, sc.contigs, sc.samples, recs, extra_header=extra, fmt_defs=fmt_defs, info_defs=info_defs,
                   contig_header=v["contig_header"])
+    with open(os.path.join(d, "in.ped"), "w") as f:
+        f.write(sc.ped_text())
     return fa, bam, vcf, sc
